@@ -1209,7 +1209,8 @@ func (v Value) addField(key string, idx int, val Value) {
 
 func (v Value) syncFields(b Value) {
 	cur := b.value.(*structT)
-	for key, idx := range cur.Lookup {
+	for _, key := range cur.Order { // in declaration order: new fields are appended to Order, which printing follows
+		idx := cur.Lookup[key]
 		value, _ := cur.Fields.Get(idx)
 		v.addField(key, idx, value)
 	}
